@@ -1,9 +1,9 @@
 """C41 — known divisions always describe the partitions truthfully.
 
 A *program* is a source collection followed by 1-3 steps.  Whatever the final
-collection is, if it reports known divisions they must be truthful; in every
-case ``npartitions == len(divisions) - 1`` and that many partitions are
-actually produced.
+collection is, if it reports known divisions they must be truthful:
+``npartitions == len(divisions) - 1``, that many partitions are actually
+produced and each holds only index values of its division interval.
 """
 from __future__ import annotations
 
@@ -25,10 +25,10 @@ RULE = (
     "divisions, sorted=True on a sorted column whose equal values straddle partitions, sort=False), "
     "repartition(npartitions | divisions+force), loc slices (open/closed, bounds inside/outside the data), partitions[a:b], "
     "boolean filters on a column or on the index, blockwise ops (assign, arithmetic, projection, map_partitions, fillna, "
-    "cumsum, sample), shift(freq) on datetime indexes, sort_values, head(compute=False), reset_index, index-aligned "
+    "cumsum, sample), shift(freq) on datetime indexes, head(compute=False), reset_index, index-aligned "
     "merge / concat(axis=1) / concat(axis=0, interleave_partitions) with a second frame. Oracle on the final collection: "
-    "npartitions == len(divisions)-1 == number of partitions produced; if divisions are known they are sorted (strictly, "
-    "but for the last pair) and every partition, computed on its own, has all index values in [div[i], div[i+1]) "
+    "if divisions are known: npartitions == len(divisions)-1 == number of partitions produced, divisions are sorted "
+    "and every partition, computed on its own, has all index values in [div[i], div[i+1]) "
     "(closed for the last). Non-trivial: the index (or the column set as index) has duplicate values, the source has "
     ">= 2 partitions and the program ends with known divisions-producing steps (not reset_index)."
 )
@@ -66,8 +66,6 @@ def apply_step(ddf, step, st_):
         elif mode == "divisions":
             d = C.division_vector(pd.Index(sorted(vals)), step.get("pos", []), step.get("lo", 0), step.get("hi", 0))
             out = ddf.set_index(col, divisions=d, shuffle_method=step.get("method", "tasks"))
-            if ddf.npartitions == 1 and len(d) == 2:
-                st_["single_partition_user_divisions"] = True
         elif mode == "sorted":
             if "s" not in ddf.columns or not st_["s_valid"]:
                 raise _Skip
@@ -77,6 +75,10 @@ def apply_step(ddf, step, st_):
         else:
             out = ddf.set_index(col, sort=False)
         st_["index_vals"] = sorted(set(vals))
+        st_["unique"] = len(set(vals)) == len(vals)
+        st_["monotonic"] = mode != "nosort"
+        if mode != "nosort":
+            st_["s_valid"] = False  # rows were reordered
         st_["original_index"] = False
         st_["dups"] = st_["dups"] or len(set(vals)) < len(vals)
         return out
@@ -92,8 +94,8 @@ def apply_step(ddf, step, st_):
         d = [first] + [v for v in inner if first < v < last] + [last]
         return ddf.repartition(divisions=d, force=True)
     if op == "loc":
-        if not ddf.known_divisions:
-            raise _Skip
+        if not ddf.known_divisions or not st_["monotonic"]:
+            raise _Skip  # label slices on a non-monotonic index with duplicates raise in pandas itself
         iv = st_["index_vals"]
         if step["a"] is None and step["b"] is None:
             raise _Skip  # ddf.loc[:] without a column indexer raises KeyError(None) (reported separately; not a C41 matter)
@@ -112,12 +114,16 @@ def apply_step(ddf, step, st_):
         if not cols:
             raise _Skip
         col = cols[step.get("col", 0) % len(cols)]
+        st_["filtered"] = True
         return ddf[ddf[col] > step["thr"]]
     if op == "filter_index":
         iv = st_["index_vals"]
-        if not iv or not ddf.known_divisions:
+        if not iv or not ddf.known_divisions or st_.get("filtered"):
+            # (a second filter whose predicate is derived from the already filtered frame hits an optimizer defect
+            # that merges both predicates over frames of different length - C43's finding, nothing about divisions)
             raise _Skip
         v = iv[step["pos"] % len(iv)]
+        st_["filtered"] = True
         ser = ddf.index.to_series()
         return ddf[ser >= v] if step.get("ge", True) else ddf[ser < v]
     if op == "blockwise":
@@ -125,6 +131,9 @@ def apply_step(ddf, step, st_):
         cols = _numeric_cols(ddf)
         if k == "assign":
             return ddf.assign(z=1) if not cols else ddf.assign(z=ddf[cols[0]] * 2)
+        if k in ("add", "cumsum"):
+            st_["setcols"] = []  # values change: the recorded column values no longer describe the data
+            st_["s_valid"] = False
         if k == "add":
             return ddf[cols] + 1 if cols else ddf
         if k == "proj":
@@ -138,6 +147,7 @@ def apply_step(ddf, step, st_):
         if k == "cumsum":
             return ddf[cols].cumsum() if cols else ddf
         if k == "sample":
+            st_["monotonic"] = False  # pandas' sample returns the rows in random order
             return ddf.sample(frac=0.5, random_state=7)
         raise ValueError(k)
     if op == "shift_freq":
@@ -160,12 +170,14 @@ def apply_step(ddf, step, st_):
         other = st_.get("other")
         if other is None or not st_["original_index"]:
             raise _Skip
+        if op != "concat0" and not (ddf.known_divisions and other.known_divisions):
+            raise _Skip  # axis=1 concat / index merge on unknown divisions is refused (or shuffles): documented
         if op == "merge_index":
             right = other.rename(columns={c: f"r_{c}" for c in other.columns})
             out = dd.merge(ddf, right, left_index=True, right_index=True, how=step.get("how", "inner"))
         elif op == "concat1":
             # pandas itself refuses concat(axis=1) on duplicated index values (InvalidIndexError)
-            if len(set(st_["index_vals"])) < st_["nrows"] or len(set(st_["other_index_vals"])) < len(st_["other_index_vals"]):
+            if not st_["unique"] or len(set(st_["other_index_vals"])) < len(st_["other_index_vals"]):
                 raise _Skip
             right = other.rename(columns={c: f"r_{c}" for c in other.columns})
             out = dd.concat([ddf, right], axis=1, join=step.get("how", "outer"))
@@ -173,22 +185,14 @@ def apply_step(ddf, step, st_):
             out = dd.concat([ddf, other], axis=0, interleave_partitions=step.get("interleave", True))
         st_["index_vals"] = sorted(set(st_["index_vals"]) | set(st_["other_index_vals"]))
         st_["dups"] = True
+        st_["unique"] = False
+        if op == "concat0":
+            st_["monotonic"] = False
         # unmatched rows get NaN in the other side's columns: no longer eligible for set_index (assumption 1)
         st_["setcols"] = []
         st_["s_valid"] = False
         return out
     raise ValueError(op)
-
-
-def _filter_after_quantile(applied):
-    """A row filter applied (anywhere) after a set_index whose divisions were computed from the data."""
-    seen = False
-    for op in applied:
-        if op == "set_index-quantile":
-            seen = True
-        elif seen and op in ("filter", "filter_index", "loc", "blockwise-fillna", "blockwise-sample", "head"):
-            return True
-    return False
 
 
 def _ident(df):
@@ -222,7 +226,8 @@ def check(spec):
             "colvals": {c: _plain_list(pdf[c]) for c in setcols + ["s"]},
             "s_valid": s_valid,
             "dups": not pdf.index.is_unique,
-            "nrows": len(pdf),
+            "unique": bool(pdf.index.is_unique),
+            "monotonic": True,
         }
         if spec.get("other"):
             o = spec["other"]
@@ -234,30 +239,44 @@ def check(spec):
     applied = []
     sig = {}
     cur = ddf
+    diverged = ""  # first step after which the reported divisions differ from those of the optimized expression
     with dask.config.set({"dataframe.shuffle.method": "tasks"}), C.quiet():
         for step in spec["steps"]:
-            sig = dict(op=step["op"] + ("-" + step["mode"] if "mode" in step else "") + ("-" + step["kind"] if "kind" in step else ""), prev=applied[-1] if applied else "source")
+            opname = step["op"] + ("-" + step["mode"] if "mode" in step else "") + ("-" + step["kind"] if "kind" in step else "")
             try:
                 nxt = apply_step(cur, step, st_)
-                nxt.divisions  # noqa: B018 - may trigger division computations
+                reported = tuple(nxt.divisions)  # may trigger division computations
             except _Skip:
                 continue
             except Exception:  # noqa: BLE001
                 # A construction that raises yields no dataframe, so C41 (a statement about dataframes that report
                 # divisions) has nothing to judge; whether the operation should have worked belongs to C36/C39/C40/C44.
                 # Counted so that the evidence shows how often it happens.
-                count("step-raised:" + sig["op"])
+                count("step-raised:" + opname)
                 continue
             cur = nxt
-            applied.append(sig["op"])
+            applied.append(opname)
+            if not diverged:
+                try:
+                    lowered = tuple(cur.optimize(fuse=False).divisions)
+                except Exception:  # noqa: BLE001
+                    lowered = None
+                if lowered is None or _divs_key(lowered) != _divs_key(reported):
+                    diverged = opname
             # the cheap clause is judged after every step so that the signature names the step that broke it
-            ensure(cur.npartitions == len(cur.divisions) - 1, f"after {' -> '.join(applied)}: npartitions={cur.npartitions} but divisions {short(cur.divisions)}", "npartitions-vs-divisions", op=sig["op"])
+            if C.divisions_known(reported):
+                ensure(cur.npartitions == len(reported) - 1, f"after {' -> '.join(applied)}: npartitions={cur.npartitions} but divisions {short(reported)}", "npartitions-vs-divisions", op=opname)
         if not applied:
             raise Reject("no applicable step")
         what = f"source divisions {short(ddf.divisions, 100)} -> {' -> '.join(applied)}"
-        sig["filter_after_quantile_set_index"] = _filter_after_quantile(applied)
-        sig["single_partition_user_divisions"] = bool(st_.get("single_partition_user_divisions"))
-        sig["shift_freq_then_more"] = "shift_freq" in applied[:-1]
+        # sig: the last step, and (if any) the first step at which optimize() changes the reported divisions - the
+        # common root of most failures (the frame reports divisions that the executed expression does not have)
+        sig = dict(op=applied[-1], divisions_differ_after_optimize=diverged)
+        known = C.divisions_known(cur.divisions)
+        if not known:
+            # C41 speaks about frames that report known divisions ((nan, nan) of an empty set_index counts as unknown)
+            count("final-unknown")
+            return
         try:
             with impl("compute partitions", **sig):
                 parts = C.partitions(cur)
@@ -267,11 +286,21 @@ def check(spec):
                 # partition is shorter than the overlap): no partitions exist to judge
                 raise Reject("not implemented") from None
             raise
-        known = cur.known_divisions
-        C.check_divisions_truthful(cur, what, sig, parts=parts)
-    count("final-known" if known else "final-unknown")
-    if known and st_["dups"]:
+        C.check_divisions_truthful(cur, what, dict(sig, frame="as-built"), parts=parts)
+        # cur.optimize() is a dataframe too (public API); it computes the very same partitions
+        with impl("optimize", **sig):
+            opt = cur.optimize()
+        if C.divisions_known(opt.divisions):
+            C.check_divisions_truthful(opt, what + " -> optimize()", dict(sig, frame="optimized"), parts=parts)
+    count("final-known")
+    if diverged:
+        count("reported-divisions-differ-from-optimized")
+    if st_["dups"]:
         count("final-known-with-duplicate-index-values")
+
+
+def _divs_key(divs):
+    return tuple("<NA>" if (d is None or C._isnan(d)) else d for d in divs)
 
 
 STEP_OPS = ["set_index", "repartition_n", "repartition_d", "loc", "partitions", "filter", "filter_index", "blockwise", "shift_freq", "sort_values", "head", "reset_index", "merge_index", "concat1", "concat0"]
@@ -279,7 +308,7 @@ STEP_OPS = ["set_index", "repartition_n", "repartition_d", "loc", "partitions", 
 
 @st.composite
 def step_spec(draw, nrows, first):
-    ops = ["set_index", "set_index", "repartition_n", "repartition_d", "loc", "loc", "partitions", "filter", "filter_index", "blockwise", "sort_values", "head", "merge_index", "concat1", "concat0", "shift_freq"]
+    ops = ["set_index", "set_index", "repartition_n", "repartition_d", "loc", "loc", "partitions", "filter", "filter_index", "blockwise", "head", "merge_index", "concat1", "concat0", "shift_freq"]
     if not first:
         ops.append("reset_index")
     op = draw(st.sampled_from(ops))
